@@ -19,7 +19,7 @@ pub fn def() -> PropDef {
     PropDef {
         id: "C05",
         level: "exploration",
-        rule: "A writer thread runs a generated history (adds, deletes, commits tagged c<n>, aborts, rollbacks, explicit and policy merges, gc, writer drop/reopen) on SimDir or MmapDirectory while 1-3 reader threads - on the same Index and on a second Index::open of the same directory - loop reload(); fingerprint(searcher) and keep a generated subset of searchers alive to re-fingerprint them later (also after gc and after the writer is gone). SimDir gates hold a reloading reader at its n-th segment-file open for a bounded time while the writer continues. Oracle: every fingerprint taken after a reload equals the model of exactly one commit j with j >= the last commit completed before the reload began, j <= the last commit started before the observation ended, and j non-decreasing per reader; a held searcher's fingerprint, count and documents never change; no reload or search returns an error. Non-trivial = a reload overlapped a commit call (logical clock intervals) or a held searcher outlived >= 2 commits; distinct by hash(case). restart_during_merge: a merge of the first writer is held at a generated storage operation (SimDir gate) while the writer is dropped and a new writer adds, deletes and commits; readers (same Index or a second Index::open) must show the newest commit before the old merge is released, after it finished, through a fresh handle, and after one more commit.",
+        rule: "A writer thread runs a generated history (adds, deletes, commits tagged c<n>, aborts, rollbacks, explicit and policy merges, gc, writer drop/reopen) on SimDir or MmapDirectory while 1-3 reader threads - on the same Index and on a second Index::open of the same directory - loop reload(); fingerprint(searcher) and keep a generated subset of searchers alive to re-fingerprint them later (also after gc and after the writer is gone). SimDir gates hold a reloading reader at its n-th segment-file open for a bounded time while the writer continues. Oracle: every fingerprint taken after a reload equals the model of exactly one commit j with j >= the last commit completed before the reload began, j <= the last commit started before the observation ended, and j non-decreasing per reader; a held searcher's fingerprint, count and documents never change; no reload or search returns an error. Half of the readers register a Warmer and a second thread polls searcher() of the same reader during the reloads: the state the warmer was shown for a generation is the state every holder of that generation gets, and a generation's (segment, delete opstamp) map is the one of the searcher's segment readers. Non-trivial = a reload overlapped a commit call (logical clock intervals) or a held searcher outlived >= 2 commits; distinct by hash(case). restart_during_merge: a merge of the first writer is held at a generated storage operation (SimDir gate) while the writer is dropped and a new writer adds, deletes and commits; readers (same Index or a second Index::open) must show the newest commit before the old merge is released, after it finished, through a fresh handle, and after one more commit.",
         assumptions: vec![
             "interleavings are those the OS produces plus bounded holds of readers at storage operations (gates); timeouts only steer, they never decide",
             "fingerprint = hash over (uid, group, body, num) of all live documents read through store and fast fields",
@@ -35,6 +35,9 @@ pub struct ReaderSpec {
     pub hold_every: u8,
     /// hold this reader at its n-th segment-file open (SimDir only)
     pub gate_nth: Option<u8>,
+    /// register a Warmer that fingerprints every searcher generation it is given
+    #[serde(default)]
+    pub warmer: bool,
 }
 #[derive(Clone, Debug, Serialize, Deserialize)]
 pub struct ReadersCase {
@@ -53,12 +56,34 @@ struct ReaderOut {
     held: Vec<(Searcher, u64, u64, usize)>, // searcher, fingerprint, tick when taken, count
     error: Option<Failure>,
     reader: Option<IndexReader>,
+    /// number of generations the reader's warmer was shown
+    warmed: usize,
+    /// searchers obtained before any warm call for their generation had returned (evidence only)
+    unwarmed: usize,
 }
 
 fn fingerprint(s: &Searcher, f: &Fields) -> Result<(u64, usize), Failure> {
     let fpv = searcher_fingerprint(s, f)?;
     let n = s.search(&AllQuery, &Count).or_fail("search_failed")?;
     Ok((fpv, n))
+}
+
+/// A `Warmer` that records what it saw: generation id -> (fingerprint, count), and the live sets it was told to keep.
+#[derive(Default)]
+struct RecWarmer {
+    warmed: std::sync::Mutex<std::collections::HashMap<u64, Result<(u64, usize), String>>>,
+    gc_live: std::sync::Mutex<Vec<Vec<u64>>>,
+}
+impl tantivy::Warmer for RecWarmer {
+    fn warm(&self, searcher: &Searcher) -> tantivy::Result<()> {
+        let (_s, f) = hist_schema();
+        let r = fingerprint(searcher, &f).map_err(|fl| format!("{}: {}", fl.sig, fl.detail));
+        self.warmed.lock().unwrap().insert(searcher.generation().generation_id(), r);
+        Ok(())
+    }
+    fn garbage_collect(&self, live_generations: &[&tantivy::SearcherGeneration]) {
+        self.gc_live.lock().unwrap().push(live_generations.iter().map(|g| g.generation_id()).collect());
+    }
 }
 
 pub struct Readers;
@@ -94,11 +119,11 @@ impl Sub for Readers {
             1 => Just(Op::Reopen),
             2 => Just(Op::Gc),
         ];
-        let reader = (any::<bool>(), 1u8..4, prop::option::weighted(0.6, 0u8..12)).prop_map(|(second_index, hold_every, gate_nth)| ReaderSpec { second_index, hold_every, gate_nth });
+        let reader = (any::<bool>(), 1u8..4, prop::option::weighted(0.6, 0u8..12), any::<bool>()).prop_map(|(second_index, hold_every, gate_nth, warmer)| ReaderSpec { second_index, hold_every, gate_nth, warmer });
         (cfg, prop::collection::vec(op, 6..50), prop::collection::vec(reader, 1..4)).prop_map(|(cfg, ops, readers)| ReadersCase { cfg, ops, readers }).boxed()
     }
     fn mandatory_labels(&self, _t: Tier) -> Vec<&'static str> {
-        vec!["reload_overlapped_commit", "held_outlived_2_commits", "gate_reached", "second_index", "dir:Mmap", "merge", "gc"]
+        vec!["reload_overlapped_commit", "held_outlived_2_commits", "gate_reached", "second_index", "dir:Mmap", "merge", "gc", "warmer", "warmed_generations>=3"]
     }
     fn run(&self, c: &ReadersCase, cx: &Ctx) -> CaseResult {
         let mut env = Env::new(c.cfg.clone())?;
@@ -146,19 +171,64 @@ impl Sub for Readers {
                 let clock = clock.clone();
                 let stop = stop.clone();
                 let hold_every = r.hold_every.max(1) as usize;
+                let use_warmer = r.warmer;
                 handles.push(
                     std::thread::Builder::new()
                         .name(format!("reader-{i}"))
                         .spawn_scoped(scope, move || {
                             let (_s, f) = hist_schema();
-                            let mut out = ReaderOut { obs: vec![], held: vec![], error: None, reader: None };
-                            let reader: IndexReader = match index.reader_builder().reload_policy(ReloadPolicy::Manual).try_into() {
+                            let mut out = ReaderOut { obs: vec![], held: vec![], error: None, reader: None, warmed: 0, unwarmed: 0 };
+                            let warmer: Option<Arc<RecWarmer>> = if use_warmer { Some(Arc::new(RecWarmer::default())) } else { None };
+                            let mut builder = index.reader_builder().reload_policy(ReloadPolicy::Manual);
+                            if let Some(w) = &warmer {
+                                let dynw: Arc<dyn tantivy::Warmer> = w.clone();
+                                builder = builder.warmers(vec![Arc::downgrade(&dynw)]);
+                            }
+                            let reader: IndexReader = match builder.try_into() {
                                 Ok(r) => r,
                                 Err(e) => {
                                     out.error = Some(Failure::new("reader_open_failed", format!("{e:?}")));
                                     return out;
                                 }
                             };
+                            // a second thread polls searcher() of the same reader while this one reloads: whatever it gets
+                            // must already have been warmed
+                            let poll_stop = Arc::new(AtomicBool::new(false));
+                            let poller = warmer.clone().map(|w| {
+                                let r2 = reader.clone();
+                                let stop2 = poll_stop.clone();
+                                std::thread::Builder::new()
+                                    .name(format!("reader-poll-{i}"))
+                                    .spawn(move || -> Option<Failure> {
+                                        let (_s, f) = hist_schema();
+                                        let mut k = 0u64;
+                                        let mut last_gid = 0u64;
+                                        while !stop2.load(Ordering::SeqCst) && k < 200_000 {
+                                            let s = r2.searcher();
+                                            let gid = s.generation().generation_id();
+                                            if gid != last_gid || k == 0 {
+                                                let seen = w.warmed.lock().unwrap().get(&gid).cloned();
+                                                match seen {
+                                                    // a generation that is searchable before its warm call returned is not
+                                                    // excluded by the property: nothing to compare yet
+                                                    None => {}
+                                                    Some(Ok((wfp, wcnt))) => match fingerprint(&s, &f) {
+                                                        Ok((x, c)) if x == wfp && c == wcnt => {}
+                                                        Ok((x, c)) => return Some(Failure::new("warmer_saw_other_state", format!("poller: generation {gid}: warmer saw {wfp} / {wcnt}, searcher gives {x} / {c}"))),
+                                                        Err(fl) => return Some(Failure::new(format!("reader_search:{}", fl.sig), format!("poller: {}", fl.detail))),
+                                                    },
+                                                    Some(Err(_)) => {}
+                                                }
+                                            }
+                                            last_gid = gid;
+                                            k += 1;
+                                            std::thread::yield_now();
+                                        }
+                                        None
+                                    })
+                                    .expect("spawn poller")
+                            });
+                            let mut prev_gen: Option<(u64, u64)> = None;
                             let mut n = 0usize;
                             loop {
                                 let finishing = stop.load(Ordering::SeqCst);
@@ -175,6 +245,46 @@ impl Sub for Readers {
                                         break;
                                     }
                                 };
+                                // generations: a new one per reload, never going back; the generation's segment map is the
+                                // searcher's; with a warmer: the generation was warmed before it was published, and the
+                                // warmer was shown the very state readers get
+                                {
+                                    let g = s.generation();
+                                    let gid = g.generation_id();
+                                    if let Some((pg, pfp)) = prev_gen {
+                                        // the same generation id names the same snapshot
+                                        if gid == pg && pfp != fpv {
+                                            out.error = Some(Failure::new("generation_id_reused_for_other_state", format!("reload #{n}: generation {gid} had fingerprint {pfp}, now {fpv}")));
+                                            break;
+                                        }
+                                    }
+                                    prev_gen = Some((gid, fpv));
+                                    let from_readers: std::collections::BTreeMap<_, _> = s.segment_readers().iter().map(|r| (r.segment_id(), r.delete_opstamp())).collect();
+                                    if &from_readers != g.segments() {
+                                        out.error = Some(Failure::new("generation_segments_differ", format!("reload #{n}: generation {:?} vs segment readers {from_readers:?}", g.segments())));
+                                        break;
+                                    }
+                                    if let Some(w) = &warmer {
+                                        let seen = w.warmed.lock().unwrap().get(&gid).cloned();
+                                        match seen {
+                                            None => {
+                                                // (not demanded by the property: only counted)
+                                                out.unwarmed += 1;
+                                            }
+                                            Some(Err(e)) => {
+                                                out.error = Some(Failure::new("warmer_search_failed", format!("reload #{n}: generation {gid}: {e}")));
+                                                break;
+                                            }
+                                            Some(Ok((wfp, wcnt))) => {
+                                                if wfp != fpv || wcnt != cnt {
+                                                    out.error = Some(Failure::new("warmer_saw_other_state", format!("reload #{n}: generation {gid}: warmer saw fingerprint {wfp} / {wcnt} docs, readers get {fpv} / {cnt}")));
+                                                    break;
+                                                }
+                                            }
+                                        }
+                                        out.warmed = w.warmed.lock().unwrap().len();
+                                    }
+                                }
                                 let after = clock.fetch_add(1, Ordering::SeqCst);
                                 out.obs.push(Obs { before, after, fp: fpv });
                                 if n % hold_every == 0 && out.held.len() < 8 {
@@ -202,6 +312,14 @@ impl Sub for Readers {
                                 }
                                 std::thread::yield_now();
                             }
+                            poll_stop.store(true, Ordering::SeqCst);
+                            if let Some(h) = poller {
+                                if let Ok(Some(fl)) = h.join() {
+                                    if out.error.is_none() {
+                                        out.error = Some(fl);
+                                    }
+                                }
+                            }
                             out.reader = Some(reader);
                             out
                         })
@@ -227,7 +345,7 @@ impl Sub for Readers {
             if let Some(sd) = &sim {
                 sd.release_all();
             }
-            handles.into_iter().map(|h| h.join().unwrap_or_else(|_| ReaderOut { obs: vec![], held: vec![], error: Some(Failure::new("panic:reader", "reader thread panicked")), reader: None })).collect()
+            handles.into_iter().map(|h| h.join().unwrap_or_else(|_| ReaderOut { obs: vec![], held: vec![], error: Some(Failure::new("panic:reader", "reader thread panicked")), reader: None, warmed: 0, unwarmed: 0 })).collect()
         });
         history_result?;
         // writer goes away, files get collected: held searchers must stay intact
@@ -297,6 +415,9 @@ impl Sub for Readers {
         cx.label(&format!("dir:{:?}", c.cfg.dir));
         cx.label_if(env.stats.merges > 0, "merge");
         cx.label_if(env.stats.gc > 0, "gc");
+        cx.label_if(c.readers.iter().any(|r| r.warmer), "warmer");
+        cx.label_if(outs.iter().any(|o| o.warmed >= 3), "warmed_generations>=3");
+        cx.count("searchers_seen_before_their_warm_call_returned", outs.iter().map(|o| o.unwarmed as u64).sum());
         if overlapped || outlived {
             cx.nontrivial(fp(c));
         }
